@@ -468,6 +468,52 @@ class P7SocketPair(Program):
                 receiver(rec, 2, pb, 'b', [('poll', 3, 2)]), receiver(rec, 3, pb, 'b', [('poll', 2, 9), ('iter_pending',)])]
 
 
+class P3bIOPortFailingDevice(Program):
+    """An IOPort whose output device refuses some writes: the send() that hit the refusal raises, every
+    send() that returned normally is delivered exactly once."""
+    name = 'P3b-ioport-device-refuses-writes'
+    light = True          # a sequential fault: all single pre-emptions and a few sampled schedules are plenty
+    expected_exceptions = ('OSError',)
+
+    def build(self, sc, rec):
+        self.wire = Wire()
+        i = self.wrap(sc, WireIn('in', wire=self.wire), 'in')
+        o = self.wrap(sc, WireOut('out', wire=self.wire, fail_on=(2, 4)), 'out')
+        p = IOPort(i, o)
+        self.ports = {'io': p}
+        self.keep = (i, o)
+        self.wires = [self.wire]
+        self.route = lambda pname: ['io']
+        return [sender(rec, 0, p, 'io', 0, (0, 1, 2), (0, 1, 0)), sender(rec, 1, p, 'io', 1, (0, 1), (3, 2)),
+                receiver(rec, 2, p, 'io', [('poll', 3, 9)])]
+
+
+class P4dFanoutMemberCloses(Program):
+    """A MultiPort over three ports; the middle one is closed between two sends: the other two still get
+    every message exactly once."""
+    name = 'P4d-multiport-fanout-member-closes'
+    light = True
+
+    def build(self, sc, rec):
+        a, b, c = (self.wrap(sc, EchoPort(n), n) for n in 'abc')
+        m = self.wrap(sc, MultiPort([a, b, c]), 'multi')
+        self.ports = {'a': a, 'c': c}
+        self.keep = (m, b)
+        self.wires = []
+        self.route = lambda pname: ['a', 'c']
+
+        first = sender(rec, 0, m, 'multi', 0, (0, 1), (0, 1))
+        second = sender(rec, 0, m, 'multi', 0, (2, 3), (0, 1))
+
+        def send_close_send():
+            # the member is closed by the sending thread itself, between two sends (closing a member WHILE
+            # another thread is inside send() is not part of the property)
+            first()
+            b.close()
+            second()
+        return [send_close_send, receiver(rec, 1, c, 'c', [('poll', 2, 9)]), receiver(rec, 2, a, 'a', [('poll', 1, 9)])]
+
+
 class P4cFaninTwoReceivers(Program):
     """Two receivers on one MultiPort, one source: whatever one receiver leaves queued in the MultiPort
     must not be overtaken by what the other one polls later (per-sender FIFO per receiver)."""
@@ -486,7 +532,8 @@ class P4cFaninTwoReceivers(Program):
 
 
 PROGRAMS = [P1Wire, P2Echo, P3IOPort, P4Fanout, P4Fanin, P5IterPending, P6ParserQueue, P6bParserQueuePollers,
-            P7SocketPair, P6cParserQueueLong, P8ParseAll, P9PanicVsSend, P6dTwoQueues, P6eInstr, P4cFaninTwoReceivers]
+            P7SocketPair, P6cParserQueueLong, P8ParseAll, P9PanicVsSend, P6dTwoQueues, P6eInstr, P4cFaninTwoReceivers,
+            P3bIOPortFailingDevice, P4dFanoutMemberCloses]
 
 
 class LockShim:
@@ -560,7 +607,8 @@ def check_history(ctx, sc, rec, prog, case):
             ctx.undecided(f'{pname}: scheduler problem {why}')
         return
     ctx.count('terminates within the step bound')
-    excs = [e for e in rec.events if e[2] == 'exc']
+    expected = getattr(prog, 'expected_exceptions', ())
+    excs = [e for e in rec.events if e[2] == 'exc' and e[5].split(':')[0] not in expected]
     ctx.check('no call raises', not excs, f'{pname}:{excs[0][3]}-raised:{excs[0][5].split(":")[0]}' if excs else '',
               case, lambda: [list(e[:5]) + [e[5]] for e in excs[:3]])
     # what was received where
@@ -853,13 +901,15 @@ def explore_program(ctx, pi, prog_cls, k, shard_filter, n_random, n_pct, tier):
             continue
         st = sched.Preempt((pt,))
         one(st, 'preempt', {'points': [list(pt)]})
-        if k >= 2:
+        if k >= 2 and not getattr(prog_cls, 'light', False):
             seconds = [(step, t) for step, others in st.alts for t in others]
             if tier == 'quick':
                 seconds = seconds[::max(1, len(seconds) // getattr(prog_cls, 'k2_samples', 6))]      # a thin slice of the 2-preemption space
             for pt2 in seconds:
                 one(sched.Preempt((pt, pt2)), 'preempt', {'points': [list(pt), list(pt2)]})
     scale = min(1.0, 350.0 / max(sc0.step, 1))        # long programs: fewer sampled schedules
+    if getattr(prog_cls, 'light', False):
+        scale *= 0.25
     n_random = max(5, int(n_random * scale))
     n_pct = max(3, int(n_pct * scale))
     for j in range(n_random):
